@@ -283,6 +283,7 @@ def run(ctx, res):
         chk = sexp.parse(st['CHECK'])
         c.expr = chk[2]
         ask(c, 'regex', 'regex %s' % sexp.dump(c.expr))
+        ask(c, 'levels', 'levels %s' % sexp.dump(c.expr))
     outs = model.run(reqs)
     res.notes.append('phase 1: %d model requests, %.0fs elapsed' % (len(reqs), time.time() - t0))
 
@@ -296,6 +297,9 @@ def run(ctx, res):
                     c.tie_fail.append(('check', mo))
             except Exception:
                 c.tie_fail.append(('check', mo))
+        if 'levels' in c.req and outs[c.req['levels']] != '(ok)':
+            c.fail.append('validated tree: a leaf does not carry the index of the || branch it sits in (%s)'
+                          % outs[c.req['levels']])
         if 'regex' in c.req and 'REGEX' in st:
             mo = outs[c.req['regex']]
             if sexp.dump(sexp.parse(mo)) != sexp.dump(sexp.parse(st['REGEX'])):
